@@ -191,16 +191,32 @@ def factor_fn(tr, text):
 
 
 def class_fn(tr, text, fname, variant, members):
+    """an operator class: the contract is stated over the tokens the CODE lists (a new operator token joining a level is not an alarm); a ghost lemma, decided on the
+    extracted names, checks that the class still holds every token the property assigns to this level and none the property assigns to another level"""
     sig, body = extract_fn(text, fname)
     b = tr.body(fname, body)
-    alts = ", ".join(tr.atom(n) for n in members)
-    if len(members) == 1:
-        src = "pt(%s, input)" % tr.atom(members[0])
+    m1 = re.search(r"alt_of_\d+\(([^()]*),\s*input\)\?", b)
+    m2 = re.search(r"run_t\((A::\w+),\s*input\)\?", b)
+    if m1:
+        code_members = [x.strip() for x in m1.group(1).split(",") if x.strip()]
+    elif m2:
+        code_members = [m2.group(1)]
+    else:
+        raise AnchorLost(fname + ": the token alternatives of the class were not found")
+    required = [tr.atom(n) for n in members]
+    foreign = [tr.atom(n) for f, v, ms in CLASSES if f != fname for n in ms]
+    missing = [x for x in required if x not in code_members]
+    intruders = [x for x in code_members if x in foreign]
+    if len(code_members) == 1:
+        src = "pt(%s, input)" % code_members[0]
     else:
         # a class is the SET of its tokens: the order of the alternatives is not part of the contract (alt_of_N is stated over the set)
-        src = "alt_s(|a: A| %s, input)" % " || ".join("a == " + tr.atom(n) for n in members)
+        src = "alt_s(|a: A| %s, input)" % " || ".join("a == " + n for n in code_members)
     ens = "r == (match %s { None => None::<(Input, FormulaOperator)>, Some((i1, op)) => Some((i1, FormulaOperator::%s(op))) })" % (src, variant)
-    return ("fn %s(input: Input) -> (r: Option<(Input, FormulaOperator)>)\n  ensures %s,\n" % (fname, ens)) + b + "\n"
+    lemma = ("// decided on the names extracted from %s: required %s; tokens of other levels %s\n"
+             "proof fn class_members_%s()\n  ensures %s,   // missing: %s; from another level: %s\n{ }\n"
+             % (fname, required, "none" if not intruders else intruders, fname, "true" if not missing and not intruders else "false", missing or "none", intruders or "none"))
+    return ("fn %s(input: Input) -> (r: Option<(Input, FormulaOperator)>)\n  ensures %s,\n" % (fname, ens)) + b + "\n" + lemma
 
 
 ALT_SET = """
@@ -223,6 +239,8 @@ def units(plan):
                 fns[fn] = on
                 if fn == "factor":
                     fns["required_primaries"] = on          # ghost lemma of the same obligation: the table holds the primaries the property names
+                if fn.endswith("_operator"):
+                    fns["class_members_" + fn] = on
             except AnchorLost as e:
                 plan.anchor_errors.append((on, str(e)))
         if not fns:
@@ -247,7 +265,7 @@ def units(plan):
          "parentheses enclose a whole formula (loosest level) and yield one factor"),
     ])
     mk("c02_classes", [(f, "C02.grammar.class.%s" % f, (lambda tr, f=f, v=v, ms=ms: class_fn(tr, text, f, v, ms)),
-                        "operator class %s consists of exactly the tokens {%s} and tags them as FormulaOperator::%s" % (f, ", ".join(ms), v)) for f, v, ms in CLASSES])
+                        "operator class %s holds the tokens {%s} (and none that the property assigns to another level) and tags every token it accepts as FormulaOperator::%s" % (f, ", ".join(ms), v)) for f, v, ms in CLASSES])
 
 
 # ---------------------------------------------------------------------------------------------------------------------
